@@ -154,8 +154,6 @@ class TunnelSettings(CommunitySettings):
         properties = {key: kwargs.pop(key) for key in list(kwargs)
                       if isinstance(getattr(type(self), key, None), property)}
         super().__init__(**kwargs)
-        # Every settings object owns its flags: ``settings.peer_flags |= {...}`` would otherwise edit the class default.
-        self._peer_flags = set(self._peer_flags)
         for key, value in properties.items():
             setattr(self, key, value)
 
@@ -180,6 +178,9 @@ class TunnelSettings(CommunitySettings):
         """
         Return the peer flags.
         """
+        if "_peer_flags" not in self.__dict__:
+            # Hand out a set of our own: ``settings.peer_flags |= {...}`` would otherwise edit the class default.
+            self._peer_flags = set(type(self)._peer_flags)
         return self._peer_flags
 
     @peer_flags.setter
